@@ -87,7 +87,7 @@ def canon_F(interp, fk):
         tuple("MARK" if isinstance(x, fk.MarkObject) else _canon_ast(x, ids) for x in interp.stack),
         tuple((k, _canon_ast(v, ids)) for k, v in sorted(interp.memory.items(), key=lambda kv: repr(kv[0]))),
         tuple(_canon_ast(s, ids) for s in interp.module_body),
-        interp._var_counter,
+        getattr(interp, "_var_counter", None),
     )
 
 
